@@ -103,4 +103,19 @@ ImplRound(n, mode) ==
   ELSE LET q == DivRoundedKernel(xc, 10^(xf - n), mode) IN
        IF n >= 0 THEN S!Ret(q, n) ELSE IF In8(q * 10^(0 - n)) THEN S!Ret(q * 10^(0 - n), 0) ELSE S!Fail
 RoundRefines == ~Ready \/ \A n \in -3..3, mode \in S!Modes : S!RoundOk(X, n, mode, ImplRound(n, mode))
+
+(* ---- tightness of the oracle (non-vacuity): where the transcription returns a value, the predicate must   *)
+(* ---- reject the neighbouring coefficients at the same scale, and the failure signal (unless the value is  *)
+(* ---- the -2^7 corner where either answer is allowed)                                                      *)
+Off(o, d) == S!Ret(o.c + d, o.f)
+TightAt(o, Ok(_)) == o.k # "ret" \/ o.c = -128 \/ (~Ok(Off(o, 1)) /\ ~Ok(Off(o, -1)) /\ ~Ok(S!Fail))
+TightVal(o, Ok(_)) == o.k # "ret" \/ o.c = -128 \/ (~Ok(Off(o, 1)) /\ ~Ok(Off(o, -1)))     \* where the statement also permits a failure signal
+Tight == ~Ready \/
+  /\ TightAt(ImplAddSub(FALSE), LAMBDA o : S!AddSubOk(X, Y, FALSE, o))
+  /\ TightAt(ImplAddSub(TRUE), LAMBDA o : S!AddSubOk(X, Y, TRUE, o))
+  /\ TightVal(ImplRem, LAMBDA o : S!RemOk(X, Y, o))
+  /\ \A mode \in S!Modes :
+       /\ TightVal(ImplMul(mode), LAMBDA o : S!MulDecOk(X, Y, mode, o))
+       /\ \A n \in 0..2 : TightAt(ImplDivRounded(n, mode), LAMBDA o : S!DivRoundedOk(X, Y, n, mode, o))
+       /\ \A n \in -2..2 : TightAt(ImplRound(n, mode), LAMBDA o : S!RoundOk(X, n, mode, o))
 =======================================================================
